@@ -29,6 +29,9 @@ import (
 	"github.com/kubewharf/kubebrain/pkg/storage"
 )
 
+// errEmptyValue refuses a write without a value before it is dealt a revision
+var errEmptyValue = errors.New("empty value in write request")
+
 // Create implements Backend interface
 func (b *backend) Create(ctx context.Context, put *proto.CreateRequest) (resp *proto.CreateResponse, err error) {
 	ts := time.Now()
@@ -42,6 +45,12 @@ func (b *backend) Create(ctx context.Context, put *proto.CreateRequest) (resp *p
 			time.Since(ts),
 			err)
 	}()
+
+	if len(put.GetValue()) == 0 {
+		// an empty value is refused on every engine alike (TiKV cannot store it, and on the other engines
+		// a key holding it would read as absent)
+		return nil, errEmptyValue
+	}
 
 	revision, err := b.create(ctx, put.Key, put.Value)
 	b.notify(ctx, put.Key, put.Value, revision, 0, err == nil, proto.Event_CREATE, err)
@@ -210,6 +219,9 @@ func (b *backend) Update(ctx context.Context, r *proto.UpdateRequest) (resp *pro
 		prevRev = r.Kv.Revision
 		lease   = r.Lease
 	)
+	if len(value) == 0 {
+		return nil, errEmptyValue
+	}
 	var curRev uint64
 	if prevRev == 0 {
 		curRev, err = b.create(ctx, key, value)
